@@ -167,6 +167,49 @@ func (lf *litFPFacts) kindTableLookups(n ast.Node) []kindLookup {
 		if !ok || len(as.Rhs) != 1 || len(as.Lhs) < 1 {
 			return true
 		}
+		// function form: precision, ok := decimalPrecision(typ.Kind), where the helper is a switch
+		// over its kind parameter whose clauses return integer constants
+		if call, isCall := unparen(as.Rhs[0]).(*ast.CallExpr); isCall && len(call.Args) == 1 {
+			if f := calleeOf(info, call); f != nil && f.Pkg() != nil && f.Pkg().Path() == pkgCONS {
+				if hfd := lf.c.funcDecl(f); hfd != nil && hfd.Body != nil {
+					rows := map[string]int64{}
+					good := true
+					ast.Inspect(hfd.Body, func(k ast.Node) bool {
+						sw, ok := k.(*ast.SwitchStmt)
+						if !ok || sw.Tag == nil {
+							return true
+						}
+						if t := info.TypeOf(sw.Tag); t == nil || !isNamed(t, pkgTYP, "FloatKind") {
+							return true
+						}
+						for _, cc := range sw.Body.List {
+							cl := cc.(*ast.CaseClause)
+							if len(cl.List) == 0 || len(cl.Body) == 0 {
+								continue
+							}
+							ret, ok := cl.Body[len(cl.Body)-1].(*ast.ReturnStmt)
+							if !ok || len(ret.Results) == 0 {
+								good = false
+								continue
+							}
+							v := info.Types[ret.Results[0]]
+							if v.Value == nil || v.Value.Kind() != constant.Int {
+								good = false
+								continue
+							}
+							for _, e := range cl.List {
+								rows[exprString(e)], _ = constant.Int64Val(v.Value)
+							}
+						}
+						return false
+					})
+					if lid, ok := as.Lhs[0].(*ast.Ident); ok && good && len(rows) > 0 {
+						out = append(out, kindLookup{as.Pos(), info.ObjectOf(lid), rows})
+					}
+				}
+			}
+			return true
+		}
 		ix, ok := unparen(as.Rhs[0]).(*ast.IndexExpr)
 		if !ok {
 			return true
